@@ -149,7 +149,12 @@ def describe(op) -> dict:
     params = set()
     for p in op.iter_parameters():
         d = p.definition
-        params.add((p.location, p.name, _marker(d.get("schema", {}))))
+        if "schema" in d:
+            sch = d["schema"]
+        else:
+            # Swagger 2.0: the type keywords sit on the parameter object itself
+            sch = {k: v for k, v in d.items() if k not in ("name", "in", "required", "x-example", "x-examples", "description")}
+        params.add((p.location, p.name, _marker(sch)))
     body = sorted(getattr(b, "media_type", "?") for b in op.body)
     responses = list(op.definition.raw.get("responses", {}).keys())
     return {"method": op.method.upper(), "path": op.path, "params": params, "body": body, "responses": responses}
@@ -192,8 +197,12 @@ def compare(op, refop, how: str, quirks: bool = False) -> tuple[str, str] | None
     # YAML scalars: property names such as on/off stay strings, date-like examples are not turned into dates
     if refop.body_schema is not None:
         try:
-            media = op.definition.resolved["requestBody"]["content"]["application/json"]["schema"]
-        except (KeyError, TypeError):
+            resolved = op.definition.resolved
+            if "requestBody" in resolved:
+                media = resolved["requestBody"]["content"]["application/json"]["schema"]
+            else:
+                media = next(q for q in resolved.get("parameters", []) if q.get("in") == "body")["schema"]
+        except (KeyError, TypeError, StopIteration):
             media = None
         if isinstance(media, dict) and isinstance(media.get("properties"), dict):
             names = list(media["properties"])
